@@ -223,6 +223,33 @@ TZ_ZONES = ["UTC", "America/New_York", "Asia/Kolkata", "Europe/London", "Austral
             "America/St_Johns", "Asia/Tokyo", "EST5", "Pacific/Pago_Pago"]
 
 
+_FS_OK = None
+
+
+def _fs_fine_grained():
+    """Do files written 3 ms apart in the scratch directory get different modified times (at microsecond resolution)?"""
+    global _FS_OK
+    if _FS_OK is None:
+        import time
+
+        from . import common
+
+        with common.scratch("vf-fsgran-") as d:
+            p = os.path.join(d, "probe")
+            ok = True
+            last = None
+            for i in range(4):
+                with open(p, "w") as f:
+                    f.write(str(i))
+                t = round(os.path.getmtime(p), 6)
+                if last is not None and t <= last:
+                    ok = False
+                last = t
+                time.sleep(0.003)
+            _FS_OK = ok
+    return _FS_OK
+
+
 def gen_files(rng, scn):
     """File mode: which stores are the library's own file stores (the others stay in memory but report real instants)."""
     b = []
@@ -242,6 +269,9 @@ def gen_tzmix(rng, N):
 
 def run_history(task):
     """task: {scn, steps, seed[, tzmix]}. Returns {"trace": {scn, events}, "info": {...}}"""
+    if task.get("files") and "root" not in task["files"] and not _fs_fine_grained():
+        # the scratch file system does not distinguish instants 3 ms apart: file mode would tie modified times
+        task = {k: v for k, v in task.items() if k != "files"}
     if task.get("files") and "root" not in task["files"]:
         from . import common
 
